@@ -964,6 +964,12 @@ def main():
     for shape in ((), (2,)):
         with ck.section(f"sac{shape}"):
             sec_sac(ck, shape)
+    # `with a key it samples from the same distribution whose log-probability it reports`: the reported law of a multi-component action is the PRODUCT
+    # of its components, so the sampled components must be independent draws (distinct key per component, also for components of equal size) -- the
+    # independence obligations of C15, discharged here as part of this clause
+    from props import C15
+    with ck.section("sampled_components_independent"):
+        C15.sec_independent_components(ck)
     ck.finish("Masked Categorical / Bernoulli / MultiCategorical: `.probs` is traced and interpreted in LOG mode (logits = log P_i, fraction normal form), giving masked "
               "probability exactly 0 and allowed probabilities p_i / sum_allowed p_j against the traced unmasked probabilities; mode()/sample() are interpreted over reals with "
               "IEEE special values with jax.random.gumbel/uniform replaced by range contracts, giving `returned index is allowed (and greedy for mode)` for every non-empty mask. "
